@@ -435,6 +435,62 @@ def bom_case(rep, rng):
 		rep.diff('bom-views', 'derived bill-of-materials views disagree with the product BOMs: ' + '; '.join(bad[:3]), {'bom': str(bom)}, py=bad[:8], oracle=True)
 
 
+def product_registry_case(rep, rng):
+	"""Products of the network under add / remove sequences at node and at network level, in either order: a product that was added to the
+	network explicitly stays a product of the network until it is removed from the network; one that is only there because a node handles it
+	goes when the last node drops it; look-ups by index agree with the list at every step (reference: a set-based model of the two registries)."""
+	from stockpyl.supply_chain_network import SupplyChainNetwork
+	from stockpyl.supply_chain_node import SupplyChainNode
+	from stockpyl.supply_chain_product import SupplyChainProduct
+	net = SupplyChainNetwork()
+	nodes = {i: SupplyChainNode(i) for i in (1, 2)}
+	for n in nodes.values():
+		net.add_node(n)
+	net.add_edge(1, 2)
+	prods = {i: SupplyChainProduct(i) for i in (50, 51, 52)}
+	local, at_node = set(), {1: set(), 2: set()}
+	ops = []
+	for step in range(rng.randint(3, 9)):
+		op = rng.choice(['node_add', 'node_add', 'net_add', 'net_add', 'node_remove', 'net_remove', 'remove_node'])
+		pi = rng.choice(sorted(prods)); ni = rng.choice([1, 2])
+		try:
+			with warnings.catch_warnings():
+				warnings.simplefilter('ignore')
+				if op == 'node_add' and ni in nodes and nodes[ni] in net.nodes:
+					nodes[ni].add_product(prods[pi]); at_node[ni].add(pi)
+				elif op == 'net_add':
+					net.add_product(prods[pi]); local.add(pi)
+				elif op == 'node_remove' and pi in at_node.get(ni, ()) and nodes[ni] in net.nodes:
+					nodes[ni].remove_product(prods[pi]); at_node[ni].discard(pi)
+				elif op == 'net_remove' and pi in local:
+					net.remove_product(prods[pi]); local.discard(pi)
+				elif op == 'remove_node' and ni == 2 and nodes[2] in net.nodes and step > 3:
+					net.remove_node(nodes[2]); at_node[2] = set()
+				else:
+					continue
+			ops.append([op, pi, ni])
+			want = set(local) | set().union(*[v for k_, v in at_node.items() if nodes[k_] in net.nodes])
+			got = {p.index for p in net.products if p.index >= 0}
+			bad = []
+			if got != want:
+				bad.append('network products %s, expected %s' % (sorted(got), sorted(want)))
+			if {i for i in net.product_indices if i >= 0} != got or {i for i in net.products_by_index if i >= 0} != got:
+				bad.append('product_indices / products_by_index disagree with products')
+			for i in want:
+				try:
+					o, ix = net.parse_product(i)
+					if o is not prods[i] or ix != i: bad.append('parse_product(%d) wrong' % i)
+				except Exception as e:
+					bad.append('parse_product(%d) raised %s' % (i, type(e).__name__))
+			if bad:
+				rep.diff('product-registry', 'after %s: %s' % (ops, '; '.join(bad[:3])), {'ops': ops}, oracle=True, theorem=None)
+				return
+		except Exception as e:
+			rep.diff('product-registry', 'operation %s raised %s: %s' % ([op, pi, ni], err_enum(e), str(e)[:100]), {'ops': ops + [[op, pi, ni]]}, oracle=True, theorem=None)
+			return
+	rep.case('product-registry', {'ops': ops}, nontrivial=len(ops) >= 3)
+
+
 def run(rep, drv):
 	th = rep.tier == 'thorough'
 	rep.rule = ('(a) random operation sequences (add_node/add_edge/add_successor/add_predecessor/remove_node/reindex_nodes, incl. repeated and '
@@ -450,6 +506,9 @@ def run(rep, drv):
 		levels_case(rep, drv, rng)
 	for k in range(800 if th else 160):
 		bom_case(rep, rng)
+	rngp = random.Random(rep.seed + 1800)
+	for k in range(1500 if th else 300):
+		product_registry_case(rep, rngp)
 
 
 def replay(rep, drv, doc):
